@@ -426,6 +426,20 @@ fn run_blocking(inst: &Instance, hist: &[Act], inner: Arc<Mutex<Inner>>) -> RunR
         w.offered = 0;
         w.offered_bytes.clear();
     }
+    if !inst.preamble.is_empty() {
+        let was = std::mem::replace(&mut inner.lock().unwrap().script_writes, false);
+        for p in &inst.preamble {
+            if let Err(e) = framed.write(p.clone()) {
+                inner.lock().unwrap().harness_error = Some(format!("preamble write failed: {e}"));
+            }
+        }
+        let mut w = inner.lock().unwrap();
+        w.script_writes = was;
+        w.written.clear();
+        w.stamps.clear();
+        w.offered = 0;
+        w.offered_bytes.clear();
+    }
     match &inst.program {
         Program::ReadLoop => loop {
             {
@@ -501,6 +515,24 @@ fn run_tokio(inst: &Instance, hist: &[Act], inner: Arc<Mutex<Inner>>) -> RunResu
         w.offered = 0;
         w.offered_bytes.clear();
     }
+    if !inst.preamble.is_empty() {
+        let was = std::mem::replace(&mut inner.lock().unwrap().script_writes, false);
+        for p in &inst.preamble {
+            let r = {
+                let mut t = tokio_test::task::spawn(framed.write(p.clone()));
+                t.poll()
+            };
+            if !matches!(r, Poll::Ready(Ok(()))) {
+                inner.lock().unwrap().harness_error = Some(format!("preamble write did not complete at once: {r:?}"));
+            }
+        }
+        let mut w = inner.lock().unwrap();
+        w.script_writes = was;
+        w.written.clear();
+        w.stamps.clear();
+        w.offered = 0;
+        w.offered_bytes.clear();
+    }
     let mut next = 0usize; // next history item to feed
     // ops: None = read(), Some(p) = write(p); ReadLoop = reads for ever
     let ops: Option<Vec<Option<Packet>>> = match &inst.program {
@@ -537,7 +569,13 @@ fn run_tokio(inst: &Instance, hist: &[Act], inner: Arc<Mutex<Inner>>) -> RunResu
                 Box::pin(async { render(&framed.read().await) })
             } else {
                 let p = ops.as_ref().unwrap()[wi].clone().unwrap();
-                Box::pin(async { render_unit(&framed.write(p).await) })
+                match (&p, inst.isi_via_handshake) {
+                    (Packet::Isi(isi), true) => {
+                        let isi = isi.clone();
+                        Box::pin(async { render_unit(&framed.handshake(isi, std::time::Duration::from_secs(5)).await) })
+                    },
+                    _ => Box::pin(async { render_unit(&framed.write(p).await) }),
+                }
             };
             let mut task = tokio_test::task::spawn(fut);
             loop {
